@@ -8,6 +8,8 @@ import (
 	"time"
 
 	dtpb "github.com/google/fhir/go/proto/google/fhir/proto/r4/core/datatypes_go_proto"
+	bcrpb "github.com/google/fhir/go/proto/google/fhir/proto/r4/core/resources/bundle_and_contained_resource_go_proto"
+	ppb "github.com/google/fhir/go/proto/google/fhir/proto/r4/core/resources/patient_go_proto"
 	"github.com/verily-src/fhirpath-go/fhirpath"
 	"github.com/verily-src/fhirpath-go/fhirpath/compopts"
 	"github.com/verily-src/fhirpath-go/fhirpath/evalopts"
@@ -745,6 +747,40 @@ func c17Contract(env *core.Env) {
 				env.Violatef("C17/custom/existing-name-accepted/"+t.Name, "AddFunction(%q, f): the name is in the function table (experimental: %v), but Compile accepts the registration", t.Name, t.Experimental)
 				break
 			}
+		}
+	}
+	// a variable bound to a contained-resource wrapper (the `resource` element of a bundle entry) is that wrapper, alone or in
+	// a collection (an empty wrapper too); a custom function's result holding a nested collection comes back item for item
+	{
+		entry := &bcrpb.ContainedResource{OneofResource: &bcrpb.ContainedResource_Patient{Patient: &ppb.Patient{Id: &dtpb.Id{Value: "p1"}}}}
+		emptyW := &bcrpb.ContainedResource{}
+		for _, val := range []system.Collection{{entry}, {system.String("s"), entry, emptyW}, {emptyW}} {
+			var opt fhirpath.EvaluateOption = evalopts.EnvVariable("entry", val)
+			if len(val) == 1 {
+				opt = evalopts.EnvVariable("entry", val[0])
+			}
+			for _, src := range []string{"%entry", "iif(true, %entry)", "Patient.name.first().select(%entry)"} {
+				rv := fx.Eval(env, src, one, nil, []fhirpath.EvaluateOption{opt})
+				env.Cover("variable-contained-wrapper")
+				if rv.IsPanic() {
+					env.Violatef(fx.PanicSig("C17", rv), "`%s` with a contained-resource wrapper variable => %s", src, rv.Short())
+				} else if !rv.IsValue() {
+					env.Violatef("C17/variable/wrapper/error", "`%s` with %%entry bound to a contained-resource wrapper => %s", src, trunc(rv.Short(), 120))
+				} else if ok, why := sameItems(rv.Raw, val); !ok {
+					env.Violatef("C17/variable/wrapper/not-the-supplied-value", "`%s` with %%entry bound to %d item(s) incl. a contained-resource wrapper: %s", src, len(val), why)
+				}
+			}
+		}
+		nested := system.Collection{system.Integer(1), system.Collection{system.String("a"), system.String("b")}, system.Collection{}}
+		nf := func(in system.Collection) (system.Collection, error) { return nested, nil }
+		rn := fx.Eval(env, "Patient.nest()", one, []fhirpath.CompileOption{compopts.AddFunction("nest", nf)}, nil)
+		env.Cover("custom-result-nested")
+		if rn.IsPanic() {
+			env.Violatef(fx.PanicSig("C17", rn), "`Patient.nest()` => %s", rn.Short())
+		} else if !rn.IsValue() {
+			env.Violatef("C17/custom/nested-result/error", "`Patient.nest()` (the function returns a collection holding collections) => %s", trunc(rn.Short(), 120))
+		} else if ok, why := sameItems(rn.Raw, nested); !ok {
+			env.Violatef("C17/custom/nested-result/changed", "`Patient.nest()`: the returned collection is not passed through unchanged: %s", why)
 		}
 	}
 	// a function registered for one Compile is not visible in another
